@@ -701,3 +701,436 @@ spec('C14', correspond=c14_correspond, replay=generic_replay, modules=['C14'],
      search=lambda run, rng, d: c14_correspond(run, random.Random(rng.random()), 'quick')['oracle_failures'],
      trusted=['HashMap/HashSet as finite maps with unspecified iteration order', 'the correspondence check'],
      assumptions=['module names and global names are plain strings; a closure\'s home module is the module name captured at its creation'])
+
+
+# ================================================================================================ heap: C01, C03, C04
+
+from gen.heap import HeapGen
+from gen.programs import Gen, ALL, CORE
+
+def heap_histories(rng, n, lengths, symbol_heavy_every=3, everys=(0, 0, 1, 3, 7)):
+    sessions, counts = [], {}
+    for i in range(n):
+        g = HeapGen(rng, symbol_heavy=(symbol_heavy_every and i % symbol_heavy_every == 0))
+        sessions.append(g.history(rng.randint(*lengths), every=rng.choice(everys)))
+        for k, v in g.counts.items():
+            counts[k] = counts.get(k, 0) + v
+    return sessions, counts
+
+
+def snapshot_reachability(snap):
+    """independent oracle on a real snapshot line: parse it, compute reachability in Python.
+    returns (problems, used, reachable_count, len)"""
+    m = re.match(r'len=(\d+) ff=(\d+) cells=(.*?) syms=(\S*) mods=(\S*) cur=(\S*)$', snap)
+    if not m:
+        return [f'unparseable snapshot {snap[:80]}'], 0, 0, 0
+    n, ff = int(m.group(1)), int(m.group(2))
+    cells = {}
+    problems = []
+    for c in m.group(3).split(';'):
+        if not c:
+            continue
+        idx, rc, desc = c.split(':', 2)
+        f = desc.split(',')
+        kids = []
+        kind = f[0]
+        if kind == 'K' or kind == 'T': kids = f[1:3]
+        elif kind == 'M': kids = f[1:2]
+        elif kind == 'F':
+            kids = f[3:5] + [p for p in f[6].strip('[]').split('/') if p]
+        elif kind == 'S':
+            if f[2] != idx: problems.append(f'symbol cell {idx} does not point to itself')
+        for k in kids:
+            if k.startswith('!'):
+                problems.append(f'cell {idx} refers to {k}: reclaimed or released storage')
+        cells[int(idx)] = (int(rc), [int(k) for k in kids if k not in ('_',) and not k.startswith('!')], kind, f)
+    if len(cells) != ff:
+        problems.append(f'{len(cells)} used cells listed, first_free={ff}')
+    # reachability from cells with handles
+    seen = set()
+    stack = [i for i, (rc, _, _, _) in cells.items() if rc > 0]
+    while stack:
+        i = stack.pop()
+        if i in seen or i not in cells:
+            continue
+        seen.add(i)
+        stack += cells[i][1]
+    # symbol table discipline
+    names = {}
+    for i, (rc, kids, kind, f) in cells.items():
+        if kind == 'S' and f[1] != '~':
+            if f[1] in names:
+                problems.append(f'two used symbol cells ({names[f[1]]}, {i}) for the same name {f[1]}')
+            names[f[1]] = i
+    table = dict(e.split('>') for e in m.group(4).split(',') if e)
+    for name, idx in table.items():
+        if idx.startswith('!') or not idx.isdigit() or names.get(name) != int(idx):
+            problems.append(f'symbol table entry {name}>{idx} does not name a used symbol cell of that name')
+    for name, i in names.items():
+        if name not in table:
+            problems.append(f'used named symbol cell {i} ({name}) is missing from the symbol table')
+    return problems, ff, len(seen), n
+
+
+def heap_oracle(sess, resp, growth_check=True):
+    """checks on the real responses of one history: invariants, exactness after a collection, size bound"""
+    from fractions import Fraction
+    failures = []
+    max_live = 0
+    last_collect = False
+    for j, (req, r) in enumerate(zip(sess, resp)):
+        if r.startswith('PANIC') or r.startswith('DRIVER-DIED'):
+            failures.append({'at': j, 'request': req, 'problem': f'the heap code crashed: {r[:200]}'})
+            break
+        if req == 'h inv' and r != 'ok':
+            failures.append({'at': j, 'request': req, 'problem': f'heap invariant broken: {r}'})
+        if req == 'h snap':
+            problems, used, reach, n = snapshot_reachability(r)
+            for p in problems:
+                failures.append({'at': j, 'request': req, 'problem': p})
+            if last_collect:
+                max_live = max(max_live, reach)
+                if used != reach:
+                    failures.append({'at': j, 'request': req, 'problem': f'immediately after a collection {used} cells are in use but {reach} are reachable (garbage retained or live data lost)'})
+                # surplus free space beyond the configured ratio is released
+                free = n - used
+                if free > (used * 3) // 4 and free != used // 10 + 1:
+                    failures.append({'at': j, 'request': req, 'problem': f'after a collection used={used} free={free}: more than MAXIMUM_FREE_RATIO and not trimmed to MINIMUM_FREE_RATIO'})
+            if growth_check and n > max(256, 2 * max(max_live, reach) + 2):
+                failures.append({'at': j, 'request': req, 'problem': f'heap has {n} cells although at most {max(max_live, reach)} were ever live at a collection (growth bound 2L+1 / initial 256)'})
+        last_collect = req == 'h collect' or (last_collect and req in ('h snap', 'h inv'))
+    return failures
+
+
+def shadow_oracle(sess, resp):
+    """the client's own shadow of the trees it built: what `peek` shows for a slot never changes while the slot is held,
+    and a clone / re-read of the same handle shows the same tree"""
+    failures = []
+    shadow = {}     # slot -> dump
+    for j, (req, r) in enumerate(zip(sess, resp)):
+        w = req.split()
+        if len(w) < 2 or w[0] != 'h':
+            continue
+        op = w[1]
+        if op in ('num', 'chr', 'cons', 'sym', 'gensym', 'trap', 'fn', 'meta', 'car', 'cdr', 'getglobal'):
+            shadow.pop(w[2], None)
+        elif op == 'clone':
+            shadow.pop(w[2], None)
+            if w[3] in shadow and r == 'ok':
+                shadow[w[2]] = shadow[w[3]]
+        elif op == 'drop':
+            shadow.pop(w[2], None)
+        elif op == 'peek':
+            if 'POISON' in r or '-59774025455' in r:      # the poison value of swept cells
+                failures.append({'at': j, 'request': req, 'problem': f'a live handle shows the poison of a reclaimed cell: {r[:200]}'})
+            if w[2] in shadow and shadow[w[2]] != r:
+                failures.append({'at': j, 'request': req, 'problem': f'the value behind a live handle changed: was {shadow[w[2]][:150]} now {r[:150]}'})
+            shadow[w[2]] = r
+    return failures
+
+
+def program_gc_sessions(rng, n, features=None):
+    """evaluator programs under forced collection with poisoning: the handle audit and the heap invariants must hold afterwards"""
+    sessions, progs = [], []
+    for i in range(n):
+        g = Gen(rng, features)
+        p = g.program()
+        progs.append(p)
+        sched = rng.choice(['every:1', 'every:2', 'every:5', 'lcg:%d:64' % rng.randrange(1 << 30)])
+        sessions.append(['new prelude', f'sched {sched}', 'poison 1', 'eval ' + hexs(p), 'sched natural', 'audit'])
+    return sessions, progs
+
+
+def c01_correspond(run, rng, tier, symbol_heavy=False, which='C01'):
+    n_hist = 400 if tier == 'quick' else 6000
+    sessions, counts = heap_histories(rng, n_hist, (20, 400) if tier == 'quick' else (20, 2500), symbol_heavy_every=1 if symbol_heavy else 3)
+    if which == 'C03':
+        # long histories with a bounded live set: sawtooth allocation
+        for size in ([1000, 5000] if tier == 'quick' else [1000, 20000, 100000]):
+            lines = ['new empty', 'sched natural', 'poison 1']
+            for i in range(size):
+                lines.append(f'h cons {i % 17} {(i + 3) % 17 if i > 20 else "_"} _')
+                if i % 997 == 0:
+                    lines += ['h collect', 'h snap', 'h inv']
+            lines += ['h collect', 'h snap', 'h inv']
+            sessions.append(lines)
+    real, model = both(sessions)
+    diffs = compare(sessions, real, model)
+    failures = []
+    for s, r in zip(sessions, real):
+        for f in heap_oracle(s, r) + shadow_oracle(s, r):
+            f['history'] = s[:f['at'] + 1] if len(s) < 600 else ['(long history: regenerate from the seed)']
+            failures.append(f)
+            break
+    # evaluator programs under forced collections, poisoning on: audit + comparison with the (GC-free) tree model
+    psessions, progs = program_gc_sessions(rng, 150 if tier == 'quick' else 3000)
+    preal, pmodel = both(psessions)
+    diffs += compare(psessions, preal, pmodel)
+    leaks = 0
+    for p, r in zip(progs, preal):
+        last = r[-1] if r else ''
+        if not last.startswith('ok'):
+            leaks += 1
+            failures.append({'expression': p, 'problem': f'after evaluation under forced collections: {last[:300]}'})
+    collections = sum(1 for s in sessions for l in s if l == 'h collect')
+    return {'evaluations': len(sessions) + len(psessions), 'distinct_nontrivial': len({tuple(s) for s in sessions if sum(1 for l in s if l == 'h collect') >= 2}),
+            'rule': 'random heap histories (allocation 45%, clone/drop 27%, define/undefine 10%, collect 8%, symbol ops 10%; operands biased to recent live slots; drops biased to old slots) '
+                    'under collection schedules natural / every allocation / every 3rd / every 7th with poisoning of swept cells; after every collection and at random points the whole heap is compared '
+                    'cell by cell (used/free, handle count, kind, payload, child indices, symbol table, globals) between the real heap and the model, the real snapshot is checked by a Python reachability oracle '
+                    'and every peek is checked against the client\'s shadow; plus evaluator programs under forced collections with a handle audit; non-trivial = history with >= 2 collections',
+            'samples': ['; '.join(sessions[0][:12]) + ' …', progs[0][:200]],
+            'disagreements': diffs, 'oracle_failures': failures,
+            'distribution': dict(counts, collections=collections, program_runs=len(psessions), audit_failures=leaks)}
+
+def heap_replay(run, content):
+    out = {'evaluations': 0, 'distinct_nontrivial': 2, 'samples': ['replay'], 'disagreements': [], 'oracle_failures': [], 'rule': 'replay'}
+    for f in content.get('failures', []):
+        if 'history' in f and f['history'] and f['history'][0].startswith('new'):
+            real, model = both([f['history']])
+            print('\n'.join(f'{a}  =>  {b[:200]}' for a, b in zip(f['history'][-8:], real[0][-8:])))
+            out['oracle_failures'] += heap_oracle(f['history'], real[0]) + shadow_oracle(f['history'], real[0])
+            out['evaluations'] += 1
+    return out
+
+HEAP_TRUST = ['Vec<Cell>/Box address stability, HashMap/HashSet as finite maps', 'f32 ratio arithmetic equals exact rationals below 5.5M cells (compared by the driver\'s `ratio` request)',
+              'the Rust type system: cells are reached only through GcRef handles', 'the correspondence check (snapshot hook, both drivers)']
+
+
+# ================================================================================================ generic evaluator differential
+
+def eval_sessions(programs, flags='prelude', extra=None):
+    return [[f'new {flags}'] + (extra or []) + ['eval ' + hexs(p)] for p in programs]
+
+def outcome_stats(real, line=-1):
+    kinds = {}
+    for r in real:
+        res, trailer = parse_eval(r[line]) if r else (None, None)
+        for k in (res or []):
+            kinds[k[0]] = kinds.get(k[0], 0) + 1
+        if res is None:
+            kinds['no-answer'] = kinds.get('no-answer', 0) + 1
+    return kinds
+
+def crash_failures(sessions, real, label='expression'):
+    """a panic or a dead process is a violation of totality whatever the property"""
+    out = []
+    for s, r in zip(sessions, real):
+        for j, x in enumerate(r):
+            if x.startswith('PANIC') or x.startswith('DRIVER-DIED'):
+                req = s[j] if j < len(s) else s[-1]
+                text = unhex(req.split(' ', 1)[1]).decode('utf-8', 'replace') if req.startswith('eval ') else req
+                out.append({label: text, 'problem': 'the interpreter panicked or died: ' + (unhex(x.split(' ')[1]).decode('utf-8', 'replace') if x.startswith('PANIC ') else x)[:300]})
+                break
+    return out
+
+
+# ================================================================================================ C08
+
+class TrapAst:
+    """trap nesting with a known outcome: the generator knows where it put the signal and which trap must catch it"""
+    def __init__(self, rng):
+        self.r = rng
+        self.n = 0
+
+    def payload(self):
+        r = self.r
+        return r.choice([("'p%d" % r.randint(0, 9), None), ("(list 'kind 'k%d 'v %d)" % (r.randint(0, 3), r.randint(0, 99)), None), ('%d' % r.randint(1, 500), None),
+                         ("'(a (b c) 7)", '(a (b c) 7)'), ("(cons 1 2)", '(cons 1 2)')])
+
+    def gen(self, depth):
+        """returns (text, outcome) with outcome ('ok', printed) | ('sig', printed) | ('abort',)"""
+        r = self.r
+        k = r.random()
+        if depth <= 0 or k < 0.2:
+            c = r.random()
+            if c < 0.45:
+                v = r.randint(0, 99)
+                return str(v), ('ok', str(v))
+            if c < 0.85:
+                text, printed = self.payload()
+                if printed is None:
+                    printed = text.lstrip("'") if text.startswith("'") else None
+                    if printed is None:
+                        m = re.match(r"\(list 'kind 'k(\d) 'v (\d+)\)", text)
+                        printed = f'(kind k{m.group(1)} v {m.group(2)})' if m else text
+                return f'(signal {text})', ('sig', printed)
+            return '(abort)', ('abort',)
+        if k < 0.55:
+            return self.trap(depth)
+        return self.context(depth)
+
+    def context(self, depth):
+        r = self.r
+        text, out = self.gen(depth - 1)
+        c = r.choice(['operand', 'operand2', 'closure', 'thunk', 'when', 'block', 'cond', 'operator', 'second'])
+        if c == 'operand': return f'(car (list {text} 2))', out
+        if c == 'operand2':
+            # two signalling operands: the left one wins
+            t2, o2 = self.gen(depth - 1)
+            if out[0] == 'ok':
+                return f'(car (cdr (list {text} {t2})))', o2
+            return f'(car (cdr (list {text} {t2})))', out
+        if c == 'closure': return f'((lambda (x) x) {text})', out
+        if c == 'thunk': return f'((lambda () {text}))', out
+        if c == 'when': return f'(when t {text})', out
+        if c == 'block': return f'(block 1 {text})', out
+        if c == 'cond':
+            return f"(if {text} 'yes 'no)", (('ok', 'yes') if out[0] == 'ok' else out)
+        if c == 'operator':
+            if out[0] == 'ok':
+                return f'(car (list {text}))', out
+            return f'({text} 1 (signal (quote never)))', out      # the operator signals first: operands are not evaluated
+        return f'(car (cdr (list 0 {text})))', out
+
+    def trap(self, depth):
+        r = self.r
+        self.n += 1
+        n = self.n
+        body, out = self.gen(depth - 1)
+        h = r.choice(['return', 'return', 'resignal', 'value', 'abort', 'nested'])
+        if h == 'return':
+            handler, hout = f"(list 'caught{n} *trapped-signal*)", (lambda s: ('ok', f'(caught{n} {s})'))
+        elif h == 'resignal':
+            handler, hout = "(signal (list 'again *trapped-signal*))", (lambda s: ('sig', f'(again {s})'))
+        elif h == 'value':
+            handler, hout = f"'handled{n}", (lambda s: ('ok', f'handled{n}'))
+        elif h == 'abort':
+            handler, hout = '(abort)', (lambda s: ('abort',))
+        else:
+            # the handler itself contains a trap that catches a second signal
+            handler, hout = f"(eval (trap (signal (list 'inner *trapped-signal*)) (list 'inner-caught{n} *trapped-signal*)))", (lambda s: ('ok', f'(inner-caught{n} (inner {s}))'))
+        text = f'(eval (trap {body} {handler}))'
+        if out[0] == 'sig':
+            return text, hout(out[1])
+        return text, out          # a value passes, an abort is never intercepted
+
+
+def c08_correspond(run, rng, tier):
+    n = 1200 if tier == 'quick' else 20000
+    ast_cases = []
+    for _ in range(n):
+        t = TrapAst(rng)
+        text, out = t.gen(rng.randint(1, 5))
+        ast_cases.append((text, out))
+    sessions = eval_sessions([t for t, _ in ast_cases])
+    # every native's own errors: one ill-typed and one ill-arity call each, trapped, the signal inspected
+    natives = ['cons', 'car', 'cdr', '.', 'append', 'unrest', 'read', 'make-trap', 'make-function', 'call-native-function', 'macroexpand', 'eval', 'load-all',
+               'print', 'add', 'substract', 'multiply', 'divide', '<', '>', 'define', 'undefine', 'whereis', 'export', 'get-current-module', 'from-module', 'with-current-module',
+               'destructure-trap', 'destructure-function', 'type-of', 'get-metadata', 'send', 'receive', 'input-file', 'output-file', 'gensym', '=']
+    bad_args = ["", "1 2 3 4 5 6", "'a", "%c 5", "(list 1) (list 2) (list 3)", "1 2", "'sym 'sym2", "(lambda (x) x)", '"str" 5', "(cons 1 2) 3"]
+    plist_forms = []
+    for nat in natives:
+        for a in bad_args:
+            plist_forms.append(f"(eval (trap ({nat} {a}) (list 'trapped (. *trapped-signal* 'kind) (. *trapped-signal* 'source))))")
+    gen_programs = []
+    for _ in range(300 if tier == 'quick' else 5000):
+        g = Gen(rng, ALL, fault_rate=0.25)
+        gen_programs.append(g.program())
+    psessions = eval_sessions(['\n'.join(plist_forms[i:i + 30]) for i in range(0, len(plist_forms), 30)] + gen_programs)
+    all_sessions = sessions + psessions
+    real, model = both(all_sessions)
+    diffs = compare(all_sessions, real, model)
+    failures = crash_failures(all_sessions, real)
+    dist = {'ok': 0, 'sig': 0, 'abort': 0}
+    for (text, out), r in zip(ast_cases, real):
+        res, _ = parse_eval(r[1] if len(r) > 1 else '')
+        got = None
+        if res and len(res) == 1:
+            k, printed, _ = res[0]
+            got = (k, printed) if k != 'abort' else ('abort',)
+        dist[out[0]] += 1
+        if got != out:
+            failures.append({'expression': text, 'expected': list(out), 'real': list(got) if got else (r[1] if len(r) > 1 else str(r))[:300],
+                             'problem': 'signal did not reach the innermost enclosing trap intact / abort was intercepted / wrong handler ran'})
+    # errors raised by the interpreter itself are plists: `(. sig 'kind)` must not fail with wrong-plist-format / wrong-argument-type for them
+    for i, s in enumerate(psessions[:len(psessions) - len(gen_programs)]):
+        r = real[len(sessions) + i]
+        res, _ = parse_eval(r[1] if len(r) > 1 else '')
+        forms = unhex(s[1].split(' ')[1]).decode().split('\n')
+        for f, x in zip(forms, res or []):
+            if x[0] == 'sig' and ('wrong-plist-format' in x[1] or "source ." in x[1]):
+                failures.append({'expression': f, 'real': x[1][:300], 'problem': 'an error raised by the interpreter itself is not a property list with kind and source'})
+    return {'evaluations': len(all_sessions), 'distinct_nontrivial': len({t for t, o in ast_cases if 'trap' in t and o[0] != 'ok' or 'caught' in str(o)}),
+            'rule': 'trap nestings 0-5 deep with the signalling expression placed in operator / operand / condition / closure body / macro body / handler position, payloads of every datum shape, '
+                    'handlers that return / re-signal / abort / trap again — outcome known to the generator (Python oracle); every native called with ill-typed and ill-arity arguments inside a trap that inspects kind and source; '
+                    'plus generated programs with a high fault rate; real vs model vs oracle; non-trivial = a case whose outcome is decided by a trap',
+            'samples': [ast_cases[i][0] for i in range(3)] + [plist_forms[7]], 'disagreements': diffs, 'oracle_failures': failures, 'distribution': dist}
+
+spec('C08', correspond=c08_correspond, replay=generic_replay, modules=['C08'],
+     search=lambda run, rng, d: c08_correspond(run, random.Random(rng.random()), 'quick')['oracle_failures'],
+     trusted=['the evaluator model is tied to eval/mod.rs by differential execution', 'the correspondence check'],
+     assumptions=['abort is the Rust value Err(nil); a signal is Err(non-nil value)', 'user-level signals of the prelude (e.g. the `soruce` typo in `last`) are outside "raised by the interpreter itself"'])
+
+
+# ================================================================================================ C19
+
+LOOPS = {
+    'tail': "(defun spin (n) \"\" (spin (add n 1)))\n(spin 0)",
+    'catch-all': "(defun spin2 (n) \"\" (try (spin2 (add n 1)) (catch-all (lambda (e) (list 'handled (. e 'kind))))))\n(spin2 0)",
+    'nested-eval': "(defun spin3 (n) \"\" (eval (list 'spin3 (add n 1))))\n(eval (trap (spin3 0) (list 'trapped (. *trapped-signal* 'kind))))",
+    'receive': "(list 'got (receive))",
+    'terminating': "(foldl add 0 (range 50))",
+    'output': "(infinite-loop 0)",
+}
+
+def c19_correspond(run, rng, tier):
+    cases = []
+    steps = [0, 1, 2, 3, 5, 10, 33, 100, 1000] + [rng.randint(0, 5000) for _ in range(10 if tier == 'quick' else 200)]
+    for name, prog in LOOPS.items():
+        for cmd in ('INTERRUPT', 'ABORT', 'STEP-IN'):
+            for k in steps:
+                if cmd == 'STEP-IN' and name not in ('terminating', 'receive'):
+                    continue        # an ignored command would let the loop run forever
+                if name == 'output' and k > 300:
+                    continue
+                if name == 'receive' and k < 100:
+                    continue        # the evaluator's own polls would consume the command before `receive` blocks: a real debugger answers then
+
+                cases.append((name, prog, [(cmd, k)]))
+        # a harmless command first, the stopping command later
+        if name != 'receive':
+            cases.append((name, prog, [('STEP-OVER', 1), ('ABORT', 40)]))
+    sessions = []
+    for name, prog, cmds in cases:
+        s = ['new prelude umbilical'] + [f'command {hexs(c)} {k}' for c, k in cmds] + ['evalstop ' + hexs(prog),
+             # afterwards: the interpreter accepts the next evaluation and still has its definitions
+             'eval ' + hexs("(list (add 1 2) (type-of foldl) (get-current-module))")]
+        sessions.append(s)
+    real, model = both(sessions, timeout=120)
+    diffs = compare(sessions, real, model)
+    failures = crash_failures(sessions, real)
+    dist = {}
+    for (name, prog, cmds), r in zip(cases, real):
+        res, trailer = parse_eval(r[-2] if len(r) >= 2 else '')
+        after, _ = parse_eval(r[-1] if r else '')
+        last = res[-1] if res else None
+        stopping = [c for c, _ in cmds if c in ('INTERRUPT', 'ABORT')]
+        key = f'{name}/{stopping[0] if stopping else "none"}'
+        dist[key] = dist.get(key, 0) + 1
+        problem = None
+        if not after or after[0][:2] != ('ok', '(3 function-type default)'):
+            problem = f'after the command the interpreter is not usable / lost its definitions: {r[-1][:200] if r else r}'
+        elif stopping and name in ('tail', 'output'):
+            want = 'abort' if stopping[0] == 'ABORT' else 'sig'
+            if last is None or last[0] != want or (want == 'sig' and 'interrupted' not in last[1]):
+                problem = f'{stopping[0]} did not stop the evaluation as prescribed: {last}'
+        elif stopping and stopping[0] == 'ABORT' and name in ('catch-all', 'nested-eval', 'receive'):
+            if last is None or last[0] != 'abort':
+                problem = f'ABORT was intercepted or ignored: {last}'
+        elif stopping and stopping[0] == 'INTERRUPT' and name in ('catch-all', 'nested-eval'):
+            # trappable: the handler sees the interrupted signal
+            if last is None or 'interrupted' not in last[1]:
+                problem = f'INTERRUPT did not arrive as a trappable `interrupted` signal: {last}'
+        if problem:
+            failures.append({'expression': prog, 'commands': cmds, 'problem': problem})
+    return {'evaluations': len(cases), 'distinct_nontrivial': len({(c[0], tuple(c[2])) for c in cases if c[0] != 'terminating'}),
+            'rule': 'programs (terminating, looping in tail position, looping through a catch-all trap, looping through nested eval+trap, blocked in receive, looping with output) x commands INTERRUPT / ABORT / ignored '
+                    'x delivery at evaluator loop head k (0,1,2,3,5,10,33,100,1000 and random k) through the scripted umbilical (hook H3), followed by a second evaluation; outcome, output and debugger messages compared real vs model, '
+                    'and checked against the property by a Python oracle; non-trivial = a non-terminating or blocked program',
+            'samples': [f'{c[0]} with {c[2]}' for c in cases[:4]], 'disagreements': diffs, 'oracle_failures': failures, 'distribution': dist}
+
+spec('C19', correspond=c19_correspond, replay=generic_replay, modules=['C19'],
+     search=lambda run, rng, d: c19_correspond(run, random.Random(rng.random()), 'quick')['oracle_failures'],
+     trusted=['std::sync::mpsc try_recv/recv as an atomic FIFO', 'the evaluator model is tied to eval/mod.rs by differential execution', 'the correspondence check (hook H3 delivers scripted commands at loop heads)'],
+     assumptions=['thread scheduling and wall-clock latency are runtime behaviour: any timing is modelled as "available from loop head k on"',
+                  'a command that arrives after the evaluation ended stays queued and is seen by the next evaluation (observation, DESIGN §5/C19)'])
